@@ -279,6 +279,14 @@ theorem decode_encode_coeff_signed (P : Params) (K g : ℕ) (h : ParamsOK P K g)
   unfold decodeI
   rw [decode_encode_coeff_I P K g h v scale len a hv hs henc]
 
+/-- `Encode` on a batched plaintext IS `EmbedScale(values, scaleUp = true, pt.MetaData, pt.Value)` (encoder.go:133):
+    in canonical form both are `RingT2Q(T⁻¹·EncodeRingT(values))`.  `Embed`/`EmbedScale` then only change the
+    REPRESENTATION (NTT if `IsNTT`, ·2^64 if `IsMontgomery`), which the tie lines undo according to the metadata
+    and the probes `embed_metadata` / `embed_mont_mul` check on the raw output. -/
+theorem embed_scaleUp_eq_encode (P : Params) (scale : Nat) (vals : Vals) :
+    embed P P.qs true scale vals = encode P true scale vals := by
+  cases vals <;> rfl
+
 /-! ### non-vacuity / concrete instances -/
 
 /-- `n = 8`, `t = 17`, `ψ` from `g = 3`: the generated tables satisfy `Valid` and the table invariant -/
@@ -353,6 +361,7 @@ end Lattigo.EncoderT.C07
 #print axioms Lattigo.EncoderT.C07.decode_signed_range
 #print axioms Lattigo.EncoderT.C07.decode_signed_boundary
 #print axioms Lattigo.EncoderT.C07.encode_signed
+#print axioms Lattigo.EncoderT.C07.embed_scaleUp_eq_encode
 #print axioms Lattigo.EncoderT.C07.permuteMatrix_ok_upto8
 #print axioms Lattigo.EncoderT.C07.ringQ2T_ringT2Q_level0_coeff
 #print axioms Lattigo.EncoderT.C07.level0_large_t_counterexample
